@@ -191,7 +191,8 @@ LeftMost(nd, n) == IF nd[n].t = "B" THEN n ELSE LeftMost(nd, nd[n].ch[0])
 RECURSIVE ListLayer(_, _, _)
 RECURSIVE ListBorder(_, _, _, _)
 ListBorder(nd, b, r, prefix) ==
-   IF r > Len(nd[b].perm) THEN (IF nd[b].next = NULL THEN <<>> ELSE ListBorder(nd, nd[b].next, 1, prefix))
+   IF b \notin DOMAIN nd THEN << <<prefix, "dangling-next">> >>       \* a next pointer to a node that is not reachable by descent (dump id -1)
+   ELSE IF r > Len(nd[b].perm) THEN (IF nd[b].next = NULL THEN <<>> ELSE ListBorder(nd, nd[b].next, 1, prefix))
    ELSE LET e == Ent(nd[b], r) IN
         (IF e.k.l <= W THEN << <<prefix \o TupKeyBytes(e.k), e.lv[2]>> >> ELSE ListLayer(nd, e.lv[2], prefix \o e.k.s)) \o ListBorder(nd, b, r + 1, prefix)
 ListLayer(nd, layerRoot, prefix) == ListBorder(nd, LeftMost(nd, layerRoot), 1, prefix)
@@ -307,7 +308,7 @@ RECURSIVE InOrderBorders(_, _)
 InOrderBorders(nd, n) == IF nd[n].t = "B" THEN <<n>>
                          ELSE LET RECURSIVE cat(_) cat(i) == IF i > nd[n].n THEN <<>> ELSE InOrderBorders(nd, nd[n].ch[i]) \o cat(i + 1) IN cat(0)
 RECURSIVE ChainFrom(_, _)
-ChainFrom(nd, b) == IF b = NULL THEN <<>> ELSE <<b>> \o ChainFrom(nd, nd[b].next)
+ChainFrom(nd, b) == IF b = NULL THEN <<>> ELSE IF b \notin DOMAIN nd THEN <<b>> ELSE <<b>> \o ChainFrom(nd, nd[b].next)
 LayerRoots(nd, rt) == {rt} \cup {n \in Reach(nd, rt) : nd[n].parent # NULL /\ nd[nd[n].parent].t = "B"}
 ChainOK(nd, rt) == \A lr \in LayerRoots(nd, rt) : LET io == InOrderBorders(nd, lr) IN ChainFrom(nd, io[1]) = io /\ nd[io[1]].prev = NULL
 WellFormed(nd, rt) == /\ nd[rt].parent = NULL /\ nd[rt].ver.root
